@@ -492,7 +492,7 @@ Section Frag.
     | FCall f args _ => negb (String.eqb f "main") && call_kinds f args && forallb arg_ok args
     | FCtor _ args _ => forallb (fun y => negb (is_cns_var y)) args && forallb arg_ok args
     | FCase scrut _ cls _ =>
-        frag scrut
+        frag scrut && data_ty (fterm_type scrut)
         && forallb (fun c => match c with FClause _ _ names ctx body =>
                                 list_eqb String.eqb names (fvars ctx)
                                 && forallb (fun b => fchi_eqb (fbchi b) FPrd) ctx && frag body end) cls
